@@ -1,4 +1,5 @@
 import SJ.Drv.Mach
+import SJ.Drv.MachAp
 import SJ.Drv.C03
 import SJ.Spec.WF
 import SJ.Spec.Schema
@@ -34,13 +35,19 @@ def allSame : String := "=|=|=|=|=|="
 def specCfgOf (c : Cfg) : Spec.Canon.Cfg := { po := c.po, fr := c.fr, ap := c.ap, limitOff := c.limitOff }
 
 /-- serialise with the given formatter, parse from the given source, compare -/
-def roundTrip (cfg : Cfg) (ext : Ext) (pretty : Bool) (src : Src) (v : JV) : String :=
+def roundTrip (cfg : Cfg) (ext : Ext) (pretty : Bool) (src : Src) (v : JV) (implField : String := "") : String :=
   let r := if pretty then serPretty ext defaultIndent (ofValue v) else serCompact ext (ofValue v)
   match r with
   | .error _ => "SERERR"
   | .ok bufs =>
     let bs := bufs.flatten
     let env : Env := { cfg := cfg, src := src, tgt := .value }
+    if cfg.ap then
+      -- `Value` under `arbitrary_precision`: the parser model that reads the private Number token (`Model.MachineAp`)
+      match Model.MachineAp.parseTop env bs with
+      | .ok v' => if encJV v' == encJV v then "=" else "V" ++ encJV v'
+      | o => MachAp.showOutcome env bs implField o
+    else
     match parseTop env bs with
     | .ok v' => if encJV v' == encJV v then "=" else "V" ++ encJV v'
     | o => showOutcome env bs o
@@ -53,8 +60,10 @@ def rtv : Handler := fun args impl =>
       let cfg := cfgOfTag ct
       if !Spec.WF.wfValue (specCfgOf cfg) v then bad "generated value is outside the representation invariant wfValue" else
       let ext := C03.extOf tb
+      let fields := impl.splitOn "|"
       let m := "|".intercalate
-        ([false, true].flatMap fun p => [Src.str, Src.slice, Src.reader].map fun s => roundTrip cfg ext p s v)
+        ([(false, 0), (true, 3)].flatMap fun (p, k) =>
+          [(Src.str, 0), (Src.slice, 1), (Src.reader, 2)].map fun (s, j) => roundTrip cfg ext p s v (fields.getD (k + j) ""))
       { model := m,
         specs := if impl == allSame then [] else [s!"C04 Value round trip is not the identity: {impl}"] }
     | _, _ => bad "decode"
